@@ -312,7 +312,7 @@ class FieldMappingTransformationBase(DetectionItemTransformation):
                 self.processing_item_applied(detection_item)
                 result = detection_item
             else:
-                mapped_items = []
+                mapped_items: list[SigmaDetectionItem | SigmaDetection] = []
                 for mapped_field in mapping:
                     mapped_item = dataclasses.replace(
                         detection_item, field=mapped_field, auto_modifiers=False
